@@ -57,15 +57,16 @@ static Constraint genConstraint(Dec &d, int signer) {
 struct Trust { int signer = 0; bool interInBag = true; int anchors = 0; /* 0 A, 1 B, 2 AB, 3 none */ int where = 0; /* 0 ctx, 1 pubfile, 2 none, 3 both (pubfile wins) */ std::vector<Constraint> cons, ctxCons; int range = 0; };
 struct Observed { int parseRes; bool parsed; size_t signedLen; int verifyRes, verifyRes2; };
 static void setCons(std::vector<KSI_CertConstraint> &arr, const std::vector<Constraint> &cs) { arr.clear(); for (auto &c : cs) arr.push_back({(char *)c.oid.c_str(), (char *)c.val.c_str()}); arr.push_back({nullptr, nullptr}); }
-static Observed observe(const Bytes &file, const Trust &t, KSI_CTX *ctx, KSI_PublicationsFile **keep = nullptr) {
-    Observed o{KSI_UNKNOWN_ERROR, false, 0, -1, -1}; TestPki &pki = TestPki::get(); HeapBuf in(file);
-    KSI_PKITruststore *ts = nullptr; KSI_PKITruststore_new(ctx, 0, &ts);
-    if (t.anchors == 0) KSI_PKITruststore_addLookupFile(ts, pki.fileA.c_str()); else if (t.anchors == 1) KSI_PKITruststore_addLookupFile(ts, pki.fileB.c_str()); else if (t.anchors == 2) KSI_PKITruststore_addLookupFile(ts, pki.fileAB.c_str());
-    KSI_CTX_setPKITruststore(ctx, ts);
-    std::vector<KSI_CertConstraint> a1, a2;
-    if (t.where == 0) { setCons(a1, t.cons); KSI_CTX_setDefaultPubFileCertConstraints(ctx, a1.data()); }
-    else if (t.where == 3) { setCons(a1, t.ctxCons); KSI_CTX_setDefaultPubFileCertConstraints(ctx, a1.data()); }
-    KSI_PublicationsFile *pf = nullptr; o.parseRes = KSI_PublicationsFile_parse(ctx, in.p, in.n, &pf); o.parsed = o.parseRes == KSI_OK && pf;
+static void configure(KSI_CTX *ctx, int anchors, const std::vector<Constraint> *ctxCons, std::vector<KSI_CertConstraint> &store) {
+    TestPki &pki = TestPki::get(); KSI_PKITruststore *ts = nullptr; KSI_PKITruststore_new(ctx, 0, &ts);
+    if (anchors == 0) KSI_PKITruststore_addLookupFile(ts, pki.fileA.c_str()); else if (anchors == 1) KSI_PKITruststore_addLookupFile(ts, pki.fileB.c_str()); else if (anchors == 2) KSI_PKITruststore_addLookupFile(ts, pki.fileAB.c_str());
+    KSI_CTX_setPKITruststore(ctx, ts); if (ctxCons) { setCons(store, *ctxCons); KSI_CTX_setDefaultPubFileCertConstraints(ctx, store.data()); }
+}
+// parseCtx != nullptr: the file is parsed under that (differently configured) context and verified under `ctx`
+static Observed observe(const Bytes &file, const Trust &t, KSI_CTX *ctx, KSI_PublicationsFile **keep = nullptr, KSI_CTX *parseCtx = nullptr) {
+    Observed o{KSI_UNKNOWN_ERROR, false, 0, -1, -1}; HeapBuf in(file); std::vector<KSI_CertConstraint> a1, a2;
+    configure(ctx, t.anchors, t.where == 0 ? &t.cons : (t.where == 3 ? &t.ctxCons : nullptr), a1);
+    KSI_PublicationsFile *pf = nullptr; o.parseRes = KSI_PublicationsFile_parse(parseCtx ? parseCtx : ctx, in.p, in.n, &pf); o.parsed = o.parseRes == KSI_OK && pf;
     if (o.parsed) {
         KSI_PublicationsFile_getSignedDataLength(pf, &o.signedLen);
         if (t.where == 1 || t.where == 3) { setCons(a2, t.cons); KSI_PublicationsFile_setCertConstraints(pf, a2.data()); }
@@ -116,8 +117,12 @@ static void modeStructure(Dec &d, Case &c) {
     if (post >= 8) { Tlv x; switch (post) { case 8: x = Tlv::raw(0x7f0, Bytes{9}, true, false); shape += "+unknownNC"; break; case 9: x = Tlv::raw(0x7f1, Bytes{9}, false, false); shape += "+unknownCrit"; break;
         case 10: x = pubRec({1500000000, hashOf(9)}, false); shape += "+P"; break; default: x = Tlv::raw(0x704, signFor(t, toSign)); shape += "+S"; if (!hasSig) sigOffset = prefix.size(); break; } x.encode(file); }
     Judgement j = judgePubFile(file); Tri v = j.verdict();
-    Ctx ctx; Observed ob = observe(file, t, ctx);
-    c.desc = "records=" + shape + " " + trustStr(t) + " ref=" + (v == T_ACCEPT ? "accept" : v == T_REJECT ? "reject(" + j.why().substr(0, 120) + ")" : "undecided");
+    // a third of the cases parse the file under another context whose anchors and default constraints are the opposite of the verifying one
+    bool sep = d.pick(3) == 0; Ctx parseCtx; std::vector<KSI_CertConstraint> pstore; std::vector<Constraint> pcons;
+    if (sep) { bool allMatch = !t.cons.empty(); for (auto &k : t.cons) if (!k.matches) allMatch = false; Constraint k; k.oid = kOidEmail; k.val = allMatch ? "nobody@elsewhere.test" : attrOf(t.signer, kOidEmail); k.matches = !allMatch; k.how = "parse-context"; pcons.push_back(k);
+        static const int opposite[] = {1, 0, 3, 2}; configure(parseCtx, opposite[t.anchors], &pcons, pstore); }
+    Ctx ctx; Observed ob = observe(file, t, ctx, nullptr, sep ? (KSI_CTX *)parseCtx : nullptr); if (sep) c.cls("verified-under-another-context");
+    c.desc = std::string(sep ? "parsed-under-another-context " : "") + "records=" + shape + " " + trustStr(t) + " ref=" + (v == T_ACCEPT ? "accept" : v == T_REJECT ? "reject(" + j.why().substr(0, 120) + ")" : "undecided");
     c.nontrivial = true; c.cls(edits || post >= 8 || !hasSig ? "structure:perturbed" : "structure:canonical");
     for (auto &r : j.rules) c.cls("rule-violated:" + r.substr(r.rfind(':') + 1));
     if (v == T_UNKNOWN) { c.cls("ref:undecided"); return; }
